@@ -1685,12 +1685,22 @@ class PyCdlib:
                                        self.eltorito_boot_catalog.validation_entry.platform_id)
 
             num_seen_efi = 0
+            seen_entries = set()
             for enc in enc_to_update:
-                if id(enc.entry.inode) in linked_inodes:
+                # An entry is listed once for every name its boot file has.
+                if id(enc.entry) in seen_entries:
                     continue
+                seen_entries.add(id(enc.entry))
 
-                enc.entry.set_data_location(current_extent,
-                                            current_extent - part_start)
+                # A boot file that another entry uses as well has been placed
+                # already; the hybrid boot sector still has to hear about it.
+                already_placed = id(enc.entry.inode) in linked_inodes
+                if already_placed:
+                    entry_extent = enc.entry.inode.extent_location()
+                else:
+                    entry_extent = current_extent
+                    enc.entry.set_data_location(current_extent,
+                                                current_extent - part_start)
 
                 if self.isohybrid_mbr is not None:
                     if enc.platform_id == 0xef:
@@ -1699,15 +1709,18 @@ class PyCdlib:
                         # hybridization was asked to have them; any other EFI
                         # images are of no concern to the hybrid boot sector.
                         if num_seen_efi == 0 and self.isohybrid_mbr.efi:
-                            self.isohybrid_mbr.update_efi(current_extent,
+                            self.isohybrid_mbr.update_efi(entry_extent,
                                                           enc.entry.sector_count,
                                                           self.pvd.space_size * self.logical_block_size)
                         elif num_seen_efi == 1 and self.isohybrid_mbr.mac:
-                            self.isohybrid_mbr.update_mac(current_extent,
+                            self.isohybrid_mbr.update_mac(entry_extent,
                                                           enc.entry.sector_count)
                         num_seen_efi += 1
                     elif enc.platform_id == 0:
-                        self.isohybrid_mbr.update_rba(current_extent)
+                        self.isohybrid_mbr.update_rba(entry_extent)
+
+                if already_placed:
+                    continue
 
                 current_extent = self._set_inode(enc.entry.inode, current_extent,
                                                  part_start)
